@@ -41,7 +41,11 @@ def run(tier, seed):
         for b in two:
             for pos, h in enumerate(b["hist"]):
                 kinds.setdefault((pos, h[0], h[1]), b)
-        two = list({json.dumps(b["hist"]): b for b in list(kinds.values()) + rng.sample(two, 25)}.values())
+        # the name changing hands (or being given up) around frames addressed to it is always taken
+        named = [b for b in two if any(h[0] in ("move_name", "drop_name") for h in b["hist"]) and sum(1 for h in b["hist"] if h == ["send_name", "alpha"]) >= 1]
+        both = [b for b in named if sum(1 for h in b["hist"] if h == ["send_name", "alpha"]) == 2]
+        two = list({json.dumps(b["hist"]): b for b in list(kinds.values()) + rng.sample(two, 25) + [b for b in both if b["hist"][0] == ["send_name", "alpha"] and b["hist"][-1] == ["send_name", "alpha"] and len(b["hist"]) == 3]
+                    + rng.sample(both, min(len(both), 16)) + rng.sample(named, min(len(named), 8))}.values())
     scen = two + five
     # a peer that starts talking at once: the first frame (a name-addressed message) arrives in one piece with the last handshake message
     eager = [dict(b, eager_first=True) for b in (two + five) if b["hist"] and b["hist"][0] == ["send_name", "alpha"]]
@@ -82,7 +86,7 @@ def run(tier, seed):
         if "tool_error" in o:
             raise lib.ToolError("inbound runner: " + o["tool_error"])
         # ---- routing: per process the handler saw exactly the model's deliveries, in order, fields intact
-        frames_only = [h for h in s["hist"] if h[0] != "kill"]
+        frames_only = [h for h in s["hist"] if h[0] not in ("kill", "move_name", "drop_name")]
         if s.get("idle") == "12s" and not o["registered"]:
             v.classify("the receiver stopped during a quiet period although the peer kept ticking (12 s interval)", case, ["C19-idle-timeout"])
             continue
